@@ -449,6 +449,16 @@ func isRangeLoop(blk *ssa.BasicBlock) bool {
 		if phi, ok := in.(*ssa.Phi); ok && phi.Comment == "rangeindex" {
 			return true
 		}
+		// range over a map or string (iterator Next): terminates by the language semantics (every key is produced at
+		// most once; channels are not iterated this way)
+		if nx, ok := in.(*ssa.Next); ok {
+			if rg, ok := nx.Iter.(*ssa.Range); ok {
+				switch rg.X.Type().Underlying().(type) {
+				case *types.Map, *types.Basic:
+					return true
+				}
+			}
+		}
 	}
 	return false
 }
